@@ -2,8 +2,12 @@ import CnlModel.Static
 /-!
 # Histories of static_number operations
 
-A history is an expression tree whose leaves are static numbers and whose nodes are the operators
-and the (narrowing or widening) conversion / assignment to `static_number<D, E>`.  `evalModel`
+A history is an expression tree whose leaves are static numbers and whose nodes are the operators,
+the shifts (run-time count; `cnl::constant` count on a static_number, where the exponent moves, and
+on a bare static_integer, where the digits widen / narrow) and the (narrowing or widening)
+conversion / assignment to `static_number<D, E>`.  The node of a left shift by a run-time count is
+annotated with the digit count `D` of its operand's type (a side condition of the theorems says
+the annotation is right): the ideal evaluation needs it to know which range the result must fit.  `evalModel`
 evaluates it with the operations of `CnlModel.Static`, left operand first; the first node that does
 anything other than return a value (an overflow signal, undefined behaviour, an ill-formed
 instantiation) ends the evaluation with that outcome.  Lean core only.
@@ -19,6 +23,16 @@ inductive SExpr where
   | div (a b : SExpr)
   | neg (a : SExpr)
   | cvt (D : Nat) (E : Int) (a : SExpr)
+  /-- `a << k`, run-time count; `D` = declared digits of `a` -/
+  | shl (D : Nat) (k : Nat) (a : SExpr)
+  /-- `a >> k`, run-time count -/
+  | shr (k : Nat) (a : SExpr)
+  /-- `a << constant<k>` on a static_number (`a >> constant<k>` is `shlN (-k)`) -/
+  | shlN (k : Int) (a : SExpr)
+  /-- `a << constant<k>` on a bare static_integer -/
+  | shlI (k : Nat) (a : SExpr)
+  /-- `a >> constant<k>` on a bare static_integer -/
+  | shrI (k : Nat) (a : SExpr)
 deriving Repr, DecidableEq
 
 /-- evaluation with the model's operations (structural recursion) -/
@@ -30,5 +44,10 @@ def evalModel (c : Cfg) : SExpr → Res SNum
   | .div a b => evalModel c a >>= fun x => evalModel c b >>= fun y => binOp c .div x y
   | .neg a => evalModel c a >>= fun x => neg x
   | .cvt D E a => evalModel c a >>= fun x => convert c D E x
+  | .shl _ k a => evalModel c a >>= fun x => shiftRT c .shl x k
+  | .shr k a => evalModel c a >>= fun x => shiftRT c .shr x k
+  | .shlN k a => evalModel c a >>= fun x => shiftConstNum .shl x k
+  | .shlI k a => evalModel c a >>= fun x => shiftConstInt c .shl x k
+  | .shrI k a => evalModel c a >>= fun x => shiftConstInt c .shr x k
 
 end Cnl.Static
